@@ -80,6 +80,7 @@ VSsetfields(int32 vkey, const char *fields)
     DYN_VWRITELIST *wlist;
     vsinstance_t   *w;
     VDATA          *vs;
+    int             building  = 0; /* a new write list is being put together */
     int             ret_value = FAIL;
 
     /* check if a NULL field list is passed in, then return with
@@ -133,6 +134,7 @@ VSsetfields(int32 vkey, const char *fields)
                     free(wlist->bptr);
                     HGOTO_ERROR(DFE_NOSPACE, FAIL);
                 }
+                building = 1;
 
                 for (i = 0; i < ac; i++) {
                     found = FALSE;
@@ -141,11 +143,8 @@ VSsetfields(int32 vkey, const char *fields)
                         if (!strcmp(av[i], vs->usym[j].name)) {
                             found = TRUE;
 
-                            if ((wlist->name[wlist->n] = strdup(vs->usym[j].name)) == NULL) {
-                                free(wlist->name);
-                                free(wlist->bptr);
+                            if ((wlist->name[wlist->n] = strdup(vs->usym[j].name)) == NULL)
                                 HGOTO_ERROR(DFE_NOSPACE, FAIL);
-                            }
                             order                  = vs->usym[j].order;
                             wlist->type[wlist->n]  = vs->usym[j].type;
                             wlist->order[wlist->n] = order;
@@ -175,11 +174,8 @@ VSsetfields(int32 vkey, const char *fields)
                             if (!strcmp(av[i], rstab[j].name)) {
                                 found = TRUE;
 
-                                if ((wlist->name[wlist->n] = strdup(rstab[j].name)) == NULL) {
-                                    free(wlist->name);
-                                    free(wlist->bptr);
+                                if ((wlist->name[wlist->n] = strdup(rstab[j].name)) == NULL)
                                     HGOTO_ERROR(DFE_NOSPACE, FAIL);
-                                }
                                 order                  = rstab[j].order;
                                 wlist->type[wlist->n]  = rstab[j].type;
                                 wlist->order[wlist->n] = order;
@@ -211,6 +207,7 @@ VSsetfields(int32 vkey, const char *fields)
                 vs->marked   = TRUE; /* mark vdata as being modified */
                 vs->new_h_sz = TRUE; /* mark vdata header size being changed */
 
+                building = 0;
                 HGOTO_DONE(SUCCEED); /* OK */
             }                        /* if wlist->n == 0 */
         }                            /* writing to empty vdata */
@@ -246,6 +243,14 @@ VSsetfields(int32 vkey, const char *fields)
     } /* setting read list */
 
 done:
+    if (building) { /* a refused request leaves no half-built field list behind */
+        free(vs->wlist.name);
+        free(vs->wlist.bptr);
+        vs->wlist.name   = NULL;
+        vs->wlist.bptr   = NULL;
+        vs->wlist.n      = 0;
+        vs->wlist.ivsize = 0;
+    }
     return ret_value;
 } /* VSsetfields */
 
